@@ -66,9 +66,12 @@ def lab_str(l):
     return str(l) if l < 10 else "%%%d" % l
 
 
-def write(n, par, rings, atom_tok, bond_tok, ring_tok=None, scheme="fresh", digit_perm=None):
+def write(n, par, rings, atom_tok, bond_tok, ring_tok=None, scheme="fresh", digit_perm=None, digit_slot=None, paren_last=()):
     """atom_tok[i]: atom spelling; bond_tok[i]: symbol written for the bond parent->i ('' = none);
-    ring_tok[(a,b)] = (symbol at a, symbol at b); digit_perm[i] = order of the digits at atom i"""
+    ring_tok[(a,b)] = (symbol at a, symbol at b); digit_perm[i] = order of the digits at atom i;
+    digit_slot[i] = k writes the ring digits of atom i after its k-th parenthesised branch (non-standard spelling
+    that selfies.encoder accepts; 0 / absent = standard position directly after the atom);
+    paren_last = atoms whose last child is parenthesised too (trailing branch, e.g. C(C)(C) - legal OpenSMILES)"""
     children = [[] for _ in range(n)]
     for i in range(1, n):
         children[par[i]].append(i)
@@ -99,21 +102,29 @@ def write(n, par, rings, atom_tok, bond_tok, ring_tok=None, scheme="fresh", digi
             continue
         i = x
         out.append(atom_tok[i])
+        digits = []
         for r in order_at[i]:
             sym = ""
             if ring_tok and r in ring_tok:
                 sym = ring_tok[r][0 if r[0] == i else 1]
-            out.append(sym + lab_str(lab[r]))
+            digits.append(sym + lab_str(lab[r]))
         ch = children[i]
+        slot = (digit_slot or {}).get(i, 0)
+        nparen = len(ch) if i in paren_last else max(0, len(ch) - 1)
+        slot = min(slot, nparen)
         todo = []
+        if slot == 0:
+            out.extend(digits)
         for k, c in enumerate(ch):
-            last = (k == len(ch) - 1)
+            last = (k == len(ch) - 1) and i not in paren_last
             if not last:
                 todo.append(("text", "("))
             todo.append(("text", bond_tok[c]))
             todo.append(("atom", c))
             if not last:
                 todo.append(("text", ")"))
+                if slot == k + 1:
+                    todo.extend(("text", d) for d in digits)
         stack.extend(reversed(todo))
     return "".join(out)
 
@@ -146,6 +157,29 @@ def g1(n, rmax, schemes=("fresh",), all_digit_orders=True, rmin=0):
                 if not rings and sc != schemes[0]:
                     continue
                 yield par, rings, sc, dp
+
+
+def lenient_variants(n, par, rings, max_trailing=3):
+    """non-standard spellings selfies.encoder accepts: yields (digit_slot, paren_last) for every subset (<= max_trailing
+    atoms) of branching atoms whose last child is parenthesised too, and every placement of each atom's ring digits
+    after its k-th parenthesised branch; the standard spelling ({}, set()) is not yielded"""
+    nch = [0] * n
+    for i in range(1, n):
+        nch[par[i]] += 1
+    branching = [i for i in range(n) if nch[i] >= 1]
+    with_digits = sorted({a for rg in rings for a in rg})
+    for k in range(0, min(len(branching), max_trailing) + 1):
+        for pl in itertools.combinations(branching, k):
+            pl = set(pl)
+            slots = []
+            for a in with_digits:
+                npar = nch[a] if a in pl else max(0, nch[a] - 1)
+                slots.append(range(0, npar + 1))
+            for combo in itertools.product(*slots):
+                ds = {a: s for a, s in zip(with_digits, combo) if s}
+                if not pl and not ds:
+                    continue
+                yield ds, pl
 
 
 def degrees(n, par, rings):
